@@ -134,6 +134,49 @@ def prepare_scratch(scratch, modules, contracts, use_models, for_playback=False)
     return changes
 
 
+def extract_block(text, start_regex, what):
+    """Statements between the `{` that ends the unique match of start_regex and its matching `}`."""
+    ms = list(re.finditer(start_regex, text))
+    if len(ms) != 1:
+        raise Undecided(f"lost anchor: /{start_regex}/ matches {len(ms)} times in {what}")
+    i = ms[0].end() - 1
+    if text[i] != "{":
+        raise Undecided(f"anchor /{start_regex}/ must end with an opening brace")
+    depth, j = 0, i
+    while j < len(text):
+        if text[j] == "{":
+            depth += 1
+        elif text[j] == "}":
+            depth -= 1
+            if depth == 0:
+                return text[i + 1:j]
+        j += 1
+    raise Undecided(f"unbalanced braces after /{start_regex}/ in {what}")
+
+
+def generate_files(scratch, gens):
+    """Mechanical extraction of code fragments from /repo's current tree into $VERIF_GEN."""
+    notes = []
+    os.makedirs(f"{scratch}/gen", exist_ok=True)
+    for g in gens:
+        bodies = []
+        out = []
+        for part in g["parts"]:
+            text = open(f"{REPO}/src/{part['file']}").read()
+            body = extract_block(text, part["start"], f"src/{part['file']}")
+            bodies.append(re.sub(r"\s+", " ", body).strip())
+            out.append(f"// extracted verbatim from src/{part['file']} (loop body after /{part['start']}/)\n"
+                       + g["wrap"].replace("@FN@", part["fn"]).replace("@BODY@", body))
+            notes.append(f"extracted loop body of src/{part['file']} after /{part['start']}/ into gen/{g['out']} as fn {part['fn']}; dropped: loop header and its iterator/stream")
+        if g.get("require_identical") and len(set(bodies)) != 1:
+            raise Undecided("the extracted bodies are no longer token-identical: " + " | ".join(p["file"] for p in g["parts"])
+                            + " (the sync and async flavours drifted apart; both are still verified separately)") \
+                if g.get("identical_is_fatal") else None
+        notes.append("extracted bodies token-identical after whitespace normalisation: " + str(len(set(bodies)) == 1))
+        open(f"{scratch}/gen/{g['out']}", "w").write("\n".join(out))
+    return notes
+
+
 def show_splice(scratch):
     r = subprocess.run(["diff", "-ru", "--exclude", "target", "--exclude", ".git", "--exclude", "examples",
                         "--exclude", "docs", "--exclude", ".cargo", "--exclude", "Cargo.lock",
@@ -478,6 +521,8 @@ def main():
             h["module_file"] = f"{VERIF}/harness/{rel}"
         modules = unit.get("modules", [])
         splice_changes = prepare_scratch(scratch, modules, unit.get("contracts", []), unit.get("use_models", []))
+        splice_changes += generate_files(scratch, unit.get("generate", []))
+        os.environ["VERIF_GEN"] = f"{scratch}/gen"
         if a.show_splice:
             show_splice(scratch)
             return 0
